@@ -110,8 +110,45 @@ def gen_scenario(rng, dense=None, ops=None, one_model=False):
             'clean': bool(cfg.get('clean_rebuild'))}
 
 
+def gen_index_after_barrier(rng):
+    """An indexed field whose column differs from its name is added, a
+    non-model mutation separates it from a later mutation that looks the
+    index up again (drop it, or build a Meta index over the column): the
+    run's own index bookkeeping has to carry the index across the barrier."""
+    intf = lambda n: {'name': n, 'kind': 'Integer', 'attrs': {'null': True}}
+    part = {'name': 'Part', 'fields': [intf('b')], 'meta': {}}
+    item = {'name': 'Item', 'fields': [intf('a')], 'meta': {}}
+    if rng.random() < 0.6:
+        new = {'name': 'owner', 'kind': 'ForeignKey',
+               'attrs': {'null': True}, 'to': 'va.Part'}
+    else:
+        new = {'name': 'c', 'kind': 'Integer',
+               'attrs': {'null': True, 'db_index': True,
+                         'db_column': 'col_c'}}
+    muts = [{'op': 'AddField', 'model': 'Item', 'field': new},
+            {'op': 'SQLMutation', 'tag': 'sql_1', 'sql': [
+                'UPDATE "django_content_type" SET "model" = "model" '
+                'WHERE 1 = 0 -- sql_1']}]
+    if rng.random() < 0.6:
+        muts.append({'op': 'ChangeField', 'model': 'Item',
+                     'name': new['name'], 'attrs': {'db_index': False}})
+    else:
+        muts.append({'op': 'ChangeMeta', 'model': 'Item',
+                     'prop': 'index_together',
+                     'value': [[new['name'], 'a']]})
+    n = len(muts)
+    k = rng.choice([1, 1, 2, 3])
+    cuts = sorted(rng.sample(range(1, n), min(k - 1, n - 1)))
+    return {'v0': [part, item], 'rows': {'va_part': [{'id': 1, 'b': 1}],
+                                         'va_item': [{'id': 1, 'a': 1}]},
+            'muts': muts, 'cuts': cuts, 'hashseed': rng.choice([0, 1]),
+            'clean': True, 'family': 'index_after_barrier'}
+
+
 def generate(seed, index, tier):
     rng = scenarios.derive_rng(seed, ID, index)
+    if index % 20 == 19:
+        return gen_index_after_barrier(rng)
     return gen_scenario(rng)
 
 
@@ -356,7 +393,8 @@ def execute(scn):
         return res
     a, c = tw['a'], tw['c']
     detail = dict(ops=tags, ops_str=' '.join(tags),
-                  clean=bool(scn.get('clean')), **features(scn))
+                  clean=bool(scn.get('clean')),
+                  family=scn.get('family'), **features(scn))
     if not tw['b_ok']:
         stats['stepwise_not_valid'] = 1
         last = tw['b_runs'][-1]
